@@ -94,7 +94,7 @@ reg("C20", "^TestC20$", q=(3000, 4, 600), t=(30000, 16, 3000), fuzz=("FuzzC20", 
     note="Trusted: go-ethereum ABI packer; the 15-line recursive specification. Domain: every call addressed to the bridge is a claim call.",
     design="§3 C20")
 
-reg("C02", "^TestC02$", q=(30, 8, 1200), t=(1500, 16, 5400), batch=60,
+reg("C02", "^TestC02(FEP)?$", q=(30, 8, 1200), t=(1500, 16, 5400), batch=60,
     technique="property-based testing, model-based/stateful: odometer-exhaustive schedules up to a depth bound + rapid random walks driving the real aggsender loop iteration by iteration against a model Agglayer; oracle = model's submission checks + exactly-once settled content",
     text="Exploration: the real aggsender (aggsender.New, real PP flow, queriers, status checker, SQLite storage, ECDSA signer; real "
          "bridge and L1 info stores fed by a generated joint world) is stepped one loop iteration at a time under generated schedules; "
@@ -117,7 +117,7 @@ reg("C09", "^TestC09$", q=(100, 4, 1200), t=(1500, 16, 5400), batch=100,
     note="Trusted: ref.VerifyProof/L1InfoLeaf/Sparse; world generator computes valid claim proofs from the reference trees.",
     design="§3 C09")
 
-reg("C10", "^TestC10$", q=(60, 4, 1200), t=(800, 16, 5400), batch=60,
+reg("C10", "^TestC10(FEP)?$", q=(60, 4, 1200), t=(800, 16, 5400), batch=60,
     technique="property-based testing: certificates from the real PP flow over rapid-generated worlds, through aggkit's real gRPC client (unix socket) and real storage; oracle = commitment recomputed from the wire message + ecrecover, 3-way field equality (in memory / wire / stored JSON), metamorphic single-field perturbations of every covered field (PP and FEP commitments, identity hash)",
     text="Exploration: every certificate the node submits is captured three times (object handed to the client, decoded protobuf "
          "message at an in-process server, JSON read back from SQLite); the signature must be the configured signer's over the "
